@@ -1,0 +1,38 @@
+//go:build verif
+
+// Package verifhook exposes observation points for the external verification
+// harness. It is only active when the repository is built with `-tags verif`;
+// without the tag every function below is an empty stub (see hook_off.go).
+package verifhook
+
+// Enabled reports whether hooks are compiled in.
+const Enabled = true
+
+// OnDurableWrite, when set, is called right after a durable write has been
+// acknowledged by the underlying store. site identifies the call site.
+var OnDurableWrite func(site string)
+
+// OnEvmOp, when set, receives every operation on the EVM state-DB wrapper.
+var OnEvmOp func(op string, args ...interface{})
+
+// OnSignerPersisted, when set, is called after the last-sign state was made
+// durable and before the signature is handed to the caller.
+var OnSignerPersisted func()
+
+func DurableWrite(site string) {
+	if f := OnDurableWrite; f != nil {
+		f(site)
+	}
+}
+
+func EvmOp(op string, args ...interface{}) {
+	if f := OnEvmOp; f != nil {
+		f(op, args...)
+	}
+}
+
+func SignerPersisted() {
+	if f := OnSignerPersisted; f != nil {
+		f()
+	}
+}
